@@ -378,6 +378,20 @@ def check(prop, tier, seed):
         for r in ex.map(do, jobs):
             results.append(r)
 
+    # impl -> spec: a sample of the randomly driven executions must be behaviours of the L2 specifications
+    import tracel2
+    paths = [r[1] for r in results]
+    kmod = 400 if tier == "quick" else 6000
+    try:
+        truns, tskipped = tracel2.convert(paths, per_module_max=kmod, per_file_max=max(8, (3 * kmod) // max(1, len(paths))))
+        tval = tracel2.validate(truns, WORK, prop, workers=max(2, NCPU // 2))
+    except RuntimeError as e:
+        raise ToolError(str(e))
+    for mod, tv in tval.items():
+        if tv["rejected"]:
+            print("MODEL-DRIFT family=%s trace-validation: %d of %d sampled real executions are not behaviours of the L2 spec; first: %s"
+                  % (mod, tv["rejected"], tv["runs"], json.dumps(tv["first_rejections"][:1])[:700]))
+
     known = load_known()
     total_runs = 0
     total_events = 0
@@ -472,6 +486,9 @@ def check(prop, tier, seed):
             traces_validated_against_impl=total_runs,
             l2_vectors_replayed=l2res.get("replayed", 0),
             l2_conformance=l2res.get("conformance", {}),
+            l2_trace_validation=dict(per_module=tval, not_modelled=tskipped,
+                                     rule="sampled randomly driven executions of the real code checked by TLC to be behaviours of "
+                                          "the L2 specification (Trace_<Module>.tla: L2 Next constrained to emit exactly the recorded events)"),
             drift=l2res.get("drift", []),
             events_monitored=total_events,
             evaluations=total_runs,
